@@ -201,3 +201,31 @@ N("handler local renamed", ["C07"],
     "            req = self.factory.windowSubscribe[self.addr][response.msgId]\n            del self.factory.windowSubscribe[self.addr][response.msgId]\n            req.alarm.cancel()\n            req.deferred.callback(response.granted)")])
 N("window guard written as not <", ["C07"],
   [(PS, "        if len(self.factory.windowSubscribe[self.addr]) >= self._window:", "        if not len(self.factory.windowSubscribe[self.addr]) < self._window:")])
+
+# ---------------------------------------------------------------- C08
+B("_publishError passes dup=False", ["C08"], [(PS, "        self._retryPublish(request, dup=True)\n\n    # ----", "        self._retryPublish(request, dup=False)\n\n    # ----")], {"C08": ["R-DUP"]})
+B("_subscribeError without retry", ["C08"], [(PS, "        self._retrySubscribe(request,  dup=True)\n", "        pass\n")], {"C08": ["R-RETRY"]})
+B("_retryRelease without re-arming", ["C08"],
+  [(PS, "        reply.alarm = self.callLater(reply.interval(), self._pubrelError, reply)\n", "")], {"C08": ["R-RETRY", "R-ARMED"]})
+B("retry re-encodes the request", ["C08"],
+  [(PS, "        request.encoded[0] |=  (dup << 3)   # set the dup flag\n        request.dup = dup\n", "        request.dup = dup\n        request.encode()\n        request.encoded[0] |=  (dup << 3)   # set the dup flag\n")], {"C08": ["R-SAME"]})
+B("_retryUnsubscribe arms the publish error callback", ["C08"],
+  [(PS, "        request.alarm = self.callLater(interval, self._unsubscribeError, request)", "        request.alarm = self.callLater(interval, self._publishError, request)")], {"C08": ["R-RETRY"]})
+B("unresolved method (D4 re-introduced)", ["C08"],
+  [(PS, "        self._retryUnsubscribe(request,  dup=True)", "        self.reUnubscribe(request,  dup=True)")], {"C08": ["X-RESOLVE", "R-RETRY"]})
+B("_retrySubscribe without the 3.1 test", ["C08"],
+  [(PS, "        if self._version == v31:\n            request.encoded[0] |=  (dup << 3)   # set the dup flag\n        interval = request.interval() + 0.25*len(self.factory.windowSubscribe[self.addr])",
+    "        request.encoded[0] |=  (dup << 3)   # set the dup flag\n        interval = request.interval() + 0.25*len(self.factory.windowSubscribe[self.addr])")], {"C08": ["R-DUP"]})
+B("_retryPublish dup << 2", ["C08"],
+  [(PS, "        request.encoded[0] |=  (dup << 3)   # set the dup flag\n        request.dup = dup", "        request.encoded[0] |=  (dup << 2)   # set the dup flag\n        request.dup = dup")], {"C08": ["R-DUP"]})
+B("resume with dup=False", ["C08"],
+  [(PS, "        for _, request in self.factory.windowPublish[self.addr].items():\n            self._retryPublish(request, dup=True)", "        for _, request in self.factory.windowPublish[self.addr].items():\n            self._retryPublish(request, dup=False)")], {"C08": ["R-DUP"]})
+B("PUBLISH DUP only under 3.1", ["C08"],
+  [(PS, "        request.encoded[0] |=  (dup << 3)   # set the dup flag\n        request.dup = dup", "        if self._version == v31:\n            request.encoded[0] |=  (dup << 3)   # set the dup flag\n        request.dup = dup")], {"C08": ["R-DUP"]})
+B("constant retry delay", ["C08"],
+  [(PS, "        reply.alarm = self.callLater(reply.interval(), self._pubrelError, reply)", "        reply.alarm = self.callLater(1, self._pubrelError, reply)")], {"C08": ["R-DELAY"]})
+B("stored packet resent from setWindowSize-like API", ["C08"],
+  [(PS, "        self._bandwith = bandwith\n", "        self._bandwith = bandwith\n        for _, request in self.factory.windowPublish[self.addr].items():\n            self.transport.write(bytes(request.encoded))\n")], {"C08": ["R-WHO-SEND", "R-DUP"]})
+N("dup passed positionally", ["C08"], [(PS, "        self._retrySubscribe(request,  dup=True)", "        self._retrySubscribe(request, True)")])
+N("dup patch written with 8*dup", ["C08"],
+  [(PS, "        request.encoded[0] |=  (dup << 3)   # set the dup flag\n        request.dup = dup", "        request.encoded[0] |=  (dup * 8)\n        request.dup = dup")])
